@@ -224,7 +224,9 @@ def _decode_node(nodeid, lexer):
     if lexer.accept_type(LPAREN):
         carg, _ = lexer.expect_type(DQSTRING, RPAREN)
         carg = _unescape(carg)
-    nodetype = lexer.accept_type(SYMBOL)
+    nodetype = None
+    if lexer.peek(1)[0] != EQUALS:  # otherwise it is the first property
+        nodetype = lexer.accept_type(SYMBOL)
     properties = dict(_decode_properties(lexer))
     lexer.expect_type(SEMICOLON)
     return Node(int(nodeid), predicate, type=nodetype,
